@@ -16,7 +16,7 @@
      ? layout dependent, safe either way    # layout dependent but needed (never, by theorem)
    rescan = scan (render printed) as tokens, or NONE
    reread = parse (scan (render printed)) as a tree, or ERR
-   class  = u (unary under postfix) and/or c (right-nested | & chain), or -
+   class  = c (right-nested | & chain), or -
    same   = 1 iff unparen reread = unparen input;  coll = 1 iff reread = collapse tree *)
 open C08_model
 
@@ -113,7 +113,7 @@ let handle line =
     let u = c08_unparen e in
     let r1 = c08_reread1 e and r2 = c08_reread2 e in
     let same r = match r with Some x -> c08_unparen x = u | None -> false in
-    let cls = (if c08_unary_under_postfix e then "u" else "") ^ (if c08_right_nested_chain e then "c" else "") in
+    let cls = if c08_right_nested_chain e then "c" else "" in
     Printf.sprintf "%s ; %s ; %s ; %s ; %s ; %s ; %s ; %s ; %s"
       (string_of_marks (c08_sp1 e)) (string_of_otoks (c08_rescan1 e)) (string_of_otree r1) (b2s (same r1))
       (string_of_marks (c08_sp2 e)) (string_of_otoks (c08_rescan2 e)) (string_of_otree r2) (b2s (same r2))
